@@ -38,7 +38,7 @@ def run(ctx):
                   (60 if q else 1500) * mult, hdr, shard=100)
 
             stage("c06unix", "services/keepstore", "main", ["C06/zz_verif_c06_unixidx_test.go"], "TestVerifC06UnixIndex$",
-                  (80 if q else 2000) * mult, hdr, shard=40 if q else 250)
+                  (60 if q else 2000) * mult, hdr, shard=30 if q else 250)
 
             stage("c06azure", "services/keepstore", "main", ["C06/zz_verif_c06_azureidx_test.go"], "TestVerifC06AzureIndex$",
                   (40 if q else 1000) * mult, hdr, shard=40 if q else 250)
